@@ -439,6 +439,14 @@ class IfgModel:
             U.check_shape(a, d.shape, 'coord-shape:%s:%s' % (nm, last), '%s after %s (populated reads so far: %s)' % (nm, last, sorted(self.reads)))
             ctx.require(bool(np.all(np.isfinite(a))), 'coord-finite:%s:%s' % (nm, last), '%s has non-finite entries after %s' % (nm, last))
             c[nm] = a
+        # the answer must not depend on the order in which the lazy coordinates are first read: observe a second copy
+        # in the reverse order (t before r, y before x)
+        i2 = self._observe()
+        for nm in reversed(COORDS):
+            a2 = np.asarray(ctx.call(getattr, i2, nm))
+            if a2.shape != c[nm].shape or not np.array_equal(a2, c[nm]):
+                ctx.fail('coord-read-order:%s:%s' % (nm, last), '%s read first (before %s) differs from %s read in the order x,y,r,t after %s: shapes %s vs %s' % (
+                    nm, [q for q in COORDS if q != nm], nm, last, a2.shape, c[nm].shape))
         x, y, r, t = c['x'], c['y'], c['r'], c['t']
         ny, nx = d.shape
         tol = 1e-9 * dx
